@@ -44,6 +44,9 @@ pub struct Case {
 	pub prekey: String,
 	pub authz_shuffle: u64,
 	pub chain_len: usize,
+	/// how the CA's order object spells the identifiers: "" | upper | reversed
+	#[serde(default)]
+	pub order_echo: String,
 }
 
 fn digest_of(spelling: &Option<String>) -> &'static str {
@@ -106,9 +109,9 @@ pub fn strategy() -> impl Strategy<Value = Case> {
 		any::<bool>(),
 		proptest::sample::select(vec!["none", "usable", "garbage", "othertype"]),
 		any::<u64>(),
-		1usize..=4,
+		(1usize..=4, prop_oneof![3 => Just(""), 1 => Just("upper"), 1 => Just("reversed")]),
 	)
-		.prop_map(|(ids, picks, key_type, dg, attrs, kp_reuse, prekey, sh, chain_len)| {
+		.prop_map(|(ids, picks, key_type, dg, attrs, kp_reuse, prekey, sh, (chain_len, order_echo))| {
 			let challenges = ids.iter().enumerate().map(|(i, id)| challenge_for(id, picks[i % picks.len()])).collect();
 			Case {
 				ids,
@@ -120,6 +123,7 @@ pub fn strategy() -> impl Strategy<Value = Case> {
 				prekey: prekey.to_string(),
 				authz_shuffle: sh,
 				chain_len,
+				order_echo: order_echo.to_string(),
 			}
 		})
 }
@@ -148,7 +152,7 @@ fn exec_in(case: &Case, acmed: &std::path::Path, dir: &std::path::Path) -> Outco
 		Err(e) => return Outcome::Infra(e),
 	};
 	let expected_ids: Vec<(String, String)> = case.ids.iter().map(|i| (i.ty.clone(), i.expected.clone())).collect();
-	let plan = CaPlan { seed: case.authz_shuffle | 1, authz_shuffle: case.authz_shuffle, chain_len: case.chain_len, ..CaPlan::default() };
+	let plan = CaPlan { seed: case.authz_shuffle | 1, authz_shuffle: case.authz_shuffle, chain_len: case.chain_len, order_echo: case.order_echo.clone(), ..CaPlan::default() };
 	let ca = match MockCa::start(plan, vec![(bb::ident_key(&expected_ids), "c1".to_string())]) {
 		Ok(c) => c,
 		Err(e) => return Outcome::Infra(e),
@@ -333,7 +337,7 @@ fn exec_in(case: &Case, acmed: &std::path::Path, dir: &std::path::Path) -> Outco
 	if (!case.kp_reuse || case.prekey != "usable") && reused && pre.is_some() && !foreign_reuse {
 		return Outcome::fail("C01:key-not-renewed", format!("kp_reuse={} prekey={} but the old key file content is still there", case.kp_reuse, case.prekey));
 	}
-	let mut classes = vec![format!("key={}", case.key_type), format!("digest={}", digest_of(&case.csr_digest)), format!("attrs={}", case.attrs.len()), format!("kp_reuse={}x{}", case.kp_reuse, case.prekey), format!("n_ids={}", case.ids.len())];
+	let mut classes = vec![format!("key={}", case.key_type), format!("digest={}", digest_of(&case.csr_digest)), format!("attrs={}", case.attrs.len()), format!("kp_reuse={}x{}", case.kp_reuse, case.prekey), format!("n_ids={}", case.ids.len()), format!("order_echo={}", if case.order_echo.is_empty() { "as-requested" } else { &case.order_echo })];
 	let mut special = false;
 	for i in case.ids.iter() {
 		for k in i.kinds.iter() {
@@ -349,7 +353,7 @@ fn exec_in(case: &Case, acmed: &std::path::Path, dir: &std::path::Path) -> Outco
 }
 
 pub fn run(ctx: &Ctx, rep: &mut Report) {
-	rep.rule = "case = certificate configuration (1..8 identifiers: plain/wildcard/IDN/mixed-case DNS, IPv4, IPv6 in a random accepted spelling; key type; csr_digest spelling; subset of the 15 subject attributes; kp_reuse x pre-existing key file none/usable/garbage/usable key of another type) run through the real daemon against the fault-free strict mock CA until the first post-operation record. Oracle: newOrder identifiers == expected normalised multiset (own punycode / RFC 5952), CSR DER (own walker): SAN multiset, subject RDNs, signatureAlgorithm OID, self-signature; CSR SPKI == SPKI of the key file snapshotted at post-operation; kp_reuse semantics; success reported. Non-trivial = >= 2 identifiers with at least one wildcard, IDN, mixed-case or non-canonical IPv6.".into();
+	rep.rule = "case = certificate configuration (1..8 identifiers: plain/wildcard/IDN/mixed-case DNS, IPv4, IPv6 in a random accepted spelling; key type; csr_digest spelling; subset of the 15 subject attributes; kp_reuse x pre-existing key file none/usable/garbage/usable key of another type) run through the real daemon against the fault-free strict mock CA (whose order object lists the identifiers as requested, in upper case or in reverse order) until the first post-operation record. Oracle: newOrder identifiers == expected normalised multiset (own punycode / RFC 5952), CSR DER (own walker): SAN multiset, subject RDNs, signatureAlgorithm OID, self-signature; CSR SPKI == SPKI of the key file snapshotted at post-operation; kp_reuse semantics; success reported. Non-trivial = >= 2 identifiers with at least one wildcard, IDN, mixed-case or non-canonical IPv6.".into();
 	rep.assume("the mock CA behaves as RFC 8555 requires and offers every challenge type (dns-01 only for wildcards)");
 	run_replays::<Case>(ctx, rep, "bb", &exec);
 	if ctx.replay.is_some() {
